@@ -95,9 +95,23 @@ def decide(n, clauses, pick):
     uniq = sorted(set(clauses), key=len)
     if any(len(c) == 0 for c in uniq):
         return False, None
-    comp = [tuple((abs(l) - 1, 1 if l > 0 else 0) for l in c) for c in uniq]
     side, _, k = pick.partition(":")
     k = int(k or 0)
+    if n > 18:
+        # large inputs are planted: every variable is forced by a unit clause (or two units clash)
+        forced = {}
+        for c in uniq:
+            if len(c) == 1:
+                if forced.get(abs(c[0]), c[0]) != c[0]:
+                    return False, None
+                forced[abs(c[0])] = c[0]
+        if len(forced) == n:
+            true = set(forced.values())
+            if all(any(l in true for l in c) for c in uniq):
+                return True, [forced[v] for v in range(1, n + 1)]
+            return False, None
+        raise ValueError("too many variables for brute force and not planted")
+    comp = [tuple((abs(l) - 1, 1 if l > 0 else 0) for l in c) for c in uniq]
     order = range(1 << n) if side != "hi" else range((1 << n) - 1, -1, -1)
     found, seen = None, 0
     for a in order:
